@@ -860,8 +860,10 @@ def check_model(ctx, results, suite):
     return len(items)
 
 
-def run(ctx, n_cases, suite='engine_rerun'):
+def run(ctx, n_cases, suite='engine_rerun', case_filter=None):
     cases = gen_cases(ctx.seed, n_cases)
+    if case_filter is not None:
+        cases = [c for c in gen_cases(ctx.seed + 7919, 5 * n_cases) if case_filter(c)][:n_cases]
     results = run_cases(cases)
     stats = collections.Counter()
     dist = collections.Counter()
